@@ -388,6 +388,25 @@ def viol_context(path, c, ln):
         if g[0] == "REQ" and len(g) > 3:
             reqkind[(g[1], g[2])] = g[3]
     ctx = []
+    # recorded finding KF-PENDING-DROPPED, base case: an unsubscribe request of this connection succeeded while a
+    # subscribe/get request for the same resource id was still outstanding
+    outst, reqs = {}, {}
+    rid_of_viol = None
+    for x in lines[:ln]:
+        g = x.split("\t")
+        if g[0] == "REQ" and len(g) > 4 and g[1] == c:
+            reqs[g[2]] = (g[3], g[4])
+            if g[3] in ("subscribe", "get", "call", "auth", "new"):
+                outst[g[4]] = outst.get(g[4], 0) + 1
+        elif g[0] == "RESP" and len(g) > 3 and g[1] == c and g[2] in reqs:
+            k, rid = reqs.pop(g[2])
+            if k in ("subscribe", "get", "call", "auth", "new"):
+                outst[rid] = outst.get(rid, 0) - 1
+            elif k == "unsubscribe" and g[3] == "ok" and outst.get(rid, 0) > 0:
+                ctx.append("unsub-while-pending:" + rid)
+        elif g[0] == "EV" and len(g) > 3 and g[1] == c and g[3] in ("delete", "unsub") and outst.get(g[2], 0) > 0:
+            # ... or a delete / unsubscribe event reached the client while its request for that id was outstanding
+            ctx.append("revoked-while-pending:" + g[2])
     i = ln - 2
     while i >= 0:
         g = lines[i].split("\t")
@@ -398,19 +417,29 @@ def viol_context(path, c, ln):
         if g[0] == "SITE":
             ctx.append("site:" + g[1])
         i -= 1
-    sites = sorted(set(l.split("\t")[1] for l in lines[:ln] if l.startswith("SITE\t")))
-    return sorted(set(ctx)), sites
+    sites = set()
+    for l in lines[:ln]:
+        if l.startswith("SITE\t"):
+            g = l.split("\t")
+            if len(g) > 2 and (g[2] == c or not g[2].startswith(("c", "h"))):
+                sites.add(g[1])
+    return sorted(set(ctx)), sorted(sites)
 
 
-def match_known(ctx, pid, kind, contexts, sites):
+def match_known(ctx, pid, kind, contexts, sites, rid=None):
     for f in ctx.known_db.get("findings", []):
-        if f["property"] != pid or f.get("kind") not in (None, kind):
+        if pid not in f.get("properties", []):
+            continue
+        if f.get("kind") not in (None, kind):
             continue
         need = f.get("context")
         if need and need not in contexts:
             continue
-        need_site = f.get("site")
-        if need_site and need_site not in sites:
+        need_sites = f.get("sites")
+        pref = f.get("context_prefixes")
+        by_site = bool(need_sites and (set(need_sites) & set(sites)))
+        by_ctx = bool(pref and rid is not None and any((p + rid) in contexts for p in pref))
+        if (need_sites or pref) and not (by_site or by_ctx):
             continue
         return f
     return None
@@ -444,7 +473,7 @@ def triage_gw(ctx, viols, stalls, stall_props=()):
         if v["prop"] != ctx.pid:
             continue
         contexts, sites = viol_context(v["path"], v["c"], v["line"])
-        kf = match_known(ctx, ctx.pid, v["kind"], contexts, sites)
+        kf = match_known(ctx, ctx.pid, v["kind"], contexts, sites, v["r"])
         if kf:
             ctx.add_known(kf["id"], kf["what"])
             nk += 1
@@ -484,8 +513,34 @@ def stage_gw(ctx, profiles, stall_props=("C13", "C15", "C19")):
         triage_gw(ctx, viols, stalls, stall_props)
         ctx.evaluations += 1
         return {"replayed": payload["history"], "violations": [v for v in viols if v["prop"] == ctx.pid]}
+    # recorded findings of this property: replay each one's history (deterministic) so that it is reported on
+    # every run while it reproduces; a finding that no longer reproduces is noted in the evidence
+    kdir = os.path.join(ctx.work, "known")
+    rep["known_replays"] = {}
+    for f in ctx.known_db.get("findings", []):
+        if ctx.pid not in f.get("properties", []) or not f.get("replay", "").endswith(".history.json"):
+            continue
+        hp = os.path.join(ROOT, f["replay"])
+        if not os.path.exists(hp):
+            continue
+        d = os.path.join(kdir, f["id"])
+        rc, out = sh([os.path.join(BUILD, "gwrun"), "-replay", hp, "-out", d], timeout=600)
+        if rc != 0:
+            rep["known_replays"][f["id"]] = "replay crashed"
+            m = re.search(r"(panic:|fatal error:)[^\n]*", out)
+            ctx.add_violation("replay of recorded finding %s crashed the gateway/harness: %s" % (f["id"], m.group(0) if m else out[:400]),
+                              {"kind": "crash", "history": hp, "log": out[:5000]})
+            continue
+        viols, stats, stalls = run_traces(ctx, d)
+        before = len(ctx.known)
+        triage_gw(ctx, viols, stalls, stall_props)
+        mine = [v for v in viols if v["prop"] == ctx.pid]
+        rep["known_replays"][f["id"]] = "reproduces (%d monitor violations of this property)" % len(mine) if mine else "no violation of this property in its replay"
+        ctx.evaluations += 1
     for name, nq, nt in profiles:
         n = ctx.q(nq, nt)
+        if n <= 0:
+            continue
         tdir = os.path.join(ctx.work, "traces-" + name)
         rc, out = sh([os.path.join(BUILD, "gwrun"), "-seed", str(ctx.seed), "-n", str(n), "-profile", name, "-out", tdir], timeout=3000)
         if rc != 0:
